@@ -251,7 +251,7 @@ OWN = {'C04': ('C04',), 'C05': ('C05',), 'C12': ('C12',), 'C20': ('C20',)}
 def run_sem(prop, tier, replay):
     if replay:
         return replay_case(prop, replay)
-    rep = common.Report(prop, tier, level='proof')
+    rep = common.Report(prop, tier, level=obligations.LEVEL.get(prop, 'exploration'))
     ob = common.check_obligations(prop, obligations.THEOREMS.get(prop, []))
     n = 700 if tier == 'quick' else 12000
     args = [(common.seed(), i, tier) for i in range(n)]
